@@ -427,3 +427,113 @@ Proof.
     + unfold nb'. lia.
     + exact EB.
 Qed.
+
+(* ---------- what t81_pack / t81_emit produce, as stuffed bytes ---------- *)
+Lemma bval_byte : forall l, length l = 8%nat -> 0 <= bval l < 256.
+Proof. intros l H. pose proof (bval_range l) as R. rewrite H in R. exact R. Qed.
+
+Lemma pack_stuff_aux : forall n l, (length l <= n)%nat ->
+  exists bs, fst (t81_pack l) = stuff bs /\ bytes_ok bs /\ l = bits8 bs ++ snd (t81_pack l).
+Proof.
+  induction n as [n IH] using lt_wf_ind. intros l Hl.
+  destruct (le_lt_dec 8 (length l)) as [H8|H8].
+  - do 8 (destruct l as [|? l]; [simpl in H8; lia|]).
+    rewrite pack_cons8. cbn [fst snd].
+    destruct (IH (length l) ltac:(simpl in Hl; lia) l ltac:(lia)) as (bs & E1 & E2 & E3).
+    exists (bval [b; b0; b1; b2; b3; b4; b5; b6] :: bs). split; [|split].
+    + rewrite E1. reflexivity.
+    + constructor; [apply bval_byte; reflexivity | assumption].
+    + unfold bits8. cbn [flat_map]. fold (bits8 bs).
+      change 8%nat with (length [b; b0; b1; b2; b3; b4; b5; b6]) at 1. rewrite bits_of_bval.
+      cbn [app]. rewrite <- E3. reflexivity.
+  - rewrite pack_short by assumption. exists []. repeat split; constructor.
+Qed.
+Lemma pack_stuff : forall l,
+  exists bs, fst (t81_pack l) = stuff bs /\ bytes_ok bs /\ l = bits8 bs ++ snd (t81_pack l).
+Proof. intros. apply pack_stuff_aux with (n := length l). lia. Qed.
+
+Lemma bytes_ok_app : forall a b, bytes_ok a -> bytes_ok b -> bytes_ok (a ++ b).
+Proof. intros. apply Forall_app. split; assumption. Qed.
+
+Lemma emit_stuff : forall words pend, (length pend < 8)%nat ->
+  exists bs pad, t81_emit pend words = stuff bs /\ bytes_ok bs /\
+                 bits8 bs = pend ++ concat words ++ pad.
+Proof.
+  induction words as [|wd ws IH]; intros pend Hp.
+  - cbn [t81_emit concat]. destruct pend as [|b pend'].
+    + exists [], []. repeat split. constructor.
+    + set (pend := b :: pend') in *.
+      destruct (pack_stuff (pend ++ repeat true (8 - length pend))) as (bs & E1 & E2 & E3).
+      assert (Hs : snd (t81_pack (pend ++ repeat true (8 - length pend))) = []).
+      { assert (L : length (pend ++ repeat true (8 - length pend)) = 8%nat)
+          by (rewrite app_length, repeat_length; lia).
+        remember (pend ++ repeat true (8 - length pend)) as l8.
+        do 8 (destruct l8 as [|? l8]; [simpl in L; lia|]). destruct l8; [|simpl in L; lia].
+        reflexivity. }
+      exists bs, (repeat true (8 - length pend)). split; [exact E1|]. split; [exact E2|].
+      rewrite Hs in E3. rewrite app_nil_r in E3. cbn [app]. symmetry. exact E3.
+  - cbn [t81_emit concat].
+    destruct (pack_stuff (pend ++ wd)) as (bs1 & E1 & E2 & E3).
+    destruct (IH (snd (t81_pack (pend ++ wd)))) as (bs2 & pad & F1 & F2 & F3).
+    { apply pack_snd_short with (n := length (pend ++ wd)). lia. }
+    exists (bs1 ++ bs2), pad. split; [|split].
+    + rewrite E1, F1, stuff_app. reflexivity.
+    + apply bytes_ok_app; assumption.
+    + rewrite bits8_app, F3. rewrite app_assoc, <- E3. rewrite <- !app_assoc. reflexivity.
+Qed.
+
+(* ---------- stuff_unstuff: what the bit writer wrote, the bit reader reads ---------- *)
+Fixpoint write_all (st : wstate) (ws : list (Z * Z)) : list Z :=
+  match ws with
+  | [] => w_flush st
+  | (v, n) :: ws' => let '(st', out) := write_bits st v n in out ++ write_all st' ws'
+  end.
+Fixpoint read_all (st : rstate) (ns : list Z) : option (list Z) :=
+  match ns with
+  | [] => Some []
+  | n :: ns' =>
+    match read_bits st n with
+    | None => None
+    | Some (v, st') => match read_all st' ns' with None => None | Some vs => Some (v :: vs) end
+    end
+  end.
+Definition write_word (vn : Z * Z) : list bool := bits_of (Z.to_nat (snd vn)) (fst vn).
+
+Lemma write_all_emit : forall ws st pend, winv st pend ->
+  Forall (fun vn => 0 < snd vn <= 24) ws ->
+  write_all st ws = t81_emit pend (map write_word ws).
+Proof.
+  induction ws as [|[v n] ws IH]; intros st pend Hi Hf.
+  - cbn [write_all map]. apply flush_spec. exact Hi.
+  - inversion Hf as [|? ? Hn Hf']; subst. cbn [snd] in Hn.
+    cbn [write_all map t81_emit]. unfold write_word at 1. cbn [fst snd].
+    destruct (write_bits_spec st pend v n Hi Hn) as (st' & E & Hi').
+    rewrite E. f_equal. apply IH; assumption.
+Qed.
+
+Lemma read_all_spec : forall ws st pad,
+  Forall (fun vn => 0 < snd vn <= 16) ws ->
+  rep st (concat (map write_word ws) ++ pad) ->
+  read_all st (map snd ws) = Some (map (fun vn => fst vn mod 2 ^ snd vn) ws).
+Proof.
+  induction ws as [|[v n] ws IH]; intros st pad Hf Hr; [reflexivity|].
+  inversion Hf as [|? ? Hn Hf']; subst. cbn [snd] in Hn.
+  cbn [map concat read_all fst snd] in *. rewrite <- app_assoc in Hr.
+  destruct (read_bits_spec st n _ _ Hn Hr) as (st' & E & Hr').
+  { unfold write_word. cbn [fst snd]. apply bits_of_length. }
+  rewrite E, (IH st' pad Hf' Hr'). unfold write_word. cbn [fst snd].
+  rewrite bval_bits_of, Z2Nat.id by lia. reflexivity.
+Qed.
+
+Theorem stuff_unstuff : forall ws tail,
+  Forall (fun vn => 0 < snd vn <= 16) ws ->
+  read_all (r_init (write_all w_init ws ++ tail)) (map snd ws)
+  = Some (map (fun vn => fst vn mod 2 ^ snd vn) ws).
+Proof.
+  intros ws tail Hf.
+  rewrite (write_all_emit ws w_init [] winv_init).
+  2:{ eapply Forall_impl; [|exact Hf]. cbn. intros; lia. }
+  destruct (emit_stuff (map write_word ws) []) as (bs & pad & E1 & E2 & E3); [simpl; lia|].
+  rewrite E1. apply read_all_spec with (pad := pad); [exact Hf|].
+  cbn [app] in E3. rewrite <- E3. apply rep_init. exact E2.
+Qed.
